@@ -96,9 +96,18 @@ def register(R):
                params=dict(executor=ExtT('bounded_executor'), task=Any, tag=OptT(ExtT('tag'))),
                returns=ExtT('future'), raise_when={'Exception': lambda c: None})
 
-    # compat.readable / seekable: stable facts about the user's file object
+    # compat.readable / seekable: stable facts about the user's file object; probing must not move the stream
+    def probe_post(c):
+        g = c.new.st.ghost.get(('stream', c.a_fileobj.label))
+        g0 = c.old.st.ghost.get(('stream', c.a_fileobj.label))
+        moved = [e for e in c.trace if e.kind == 'ext' and e.name in ('fileobj_or_name.read', 'fileobj_or_name.write', 'fileobj_or_name.close')]
+        return {'probing_leaves_the_stream_position_where_it_was': (
+            z3.And(B(not moved), g['pos'] == g0['pos']) if g is not None and g0 is not None else B(not moved), ['C01', 'C02'])}
+
     for fn in ('readable', 'seekable'):
-        R.contract(f's3transfer.compat:{fn}', params=dict(fileobj=ExtT('fileobj_or_name')), events=False,
+        R.contract(f's3transfer.compat:{fn}', props=['C01', 'C02'], params=dict(fileobj=ExtT('fileobj_or_name')), events=False,
+                   setup=lambda eng, st, args, self_val: R.stream_state(st, args['fileobj']),
+                   checks=probe_post, raises={'Exception': lambda c: {}},
                    returns=lambda c, st, fn=fn: c.engine.opaque_pred(c.a_fileobj, 'is_' + fn))
 
     # ------------------------------------------------------------------ user-supplied source stream
@@ -153,7 +162,8 @@ def register(R):
                tell=ExtSpec(returns=src_tell, raises=('Exception',)),
                seek=ExtSpec(raises=('Exception',), effect=src_seek_effect),
                close=ExtSpec(raises=('Exception',)),
-               write=ExtSpec(raises=('Exception',)))
+               write=ExtSpec(raises=('Exception',)),
+               seekable=ExtSpec(returns=Bool, pure=True), readable=ExtSpec(returns=Bool, pure=True))
     R.stream_state = stream
 
     # ------------------------------------------------------------------ upload input managers
